@@ -22,7 +22,7 @@ _SZ = [{"field_types": {"self.notes": "[" + ",".join(["Note"] * k) + "]"}} for k
 CONTRACTS[NC + "empty"] = dict(
     params={"self": "NoteContainer"}, returns="None", ensures=[("no-notes-left", "len(self.notes) == 0"),
                                                                 ("a-new-list", "is_fresh(self.notes)")],
-    modifies=["param:self"], properties=["C12"], battery="nc_only")
+    modifies=["param:self"], havoc={"self.notes": "[]"}, properties=["C12"], battery="nc_only")
 CONTRACTS[NC + "remove_duplicate_notes"] = dict(
     params={"self": "NoteContainer"}, requires="all([is_name(n.name) for n in self.notes])", returns="list[any]",
     old={"old_notes": "[n for n in self.notes]"}, old_by_reference=["old_notes"],
@@ -44,7 +44,7 @@ CONTRACTS[BAR + "empty"] = dict(
     params={"self": "BarS"}, returns="list[any]",
     ensures=[("no-entries", "len(self.bar) == 0"), ("beat-back-to-zero", "self.current_beat == 0"),
              ("returns-the-entry-list", "same_object(result, self.bar)")],
-    modifies=["param:self"], properties=["C13"], battery="bars_filled")
+    modifies=["param:self"], havoc={"self.bar": "[]", "self.current_beat": "=0.0"}, properties=["C13"], battery="bars_filled")
 CONTRACTS[BAR + "__len__"] = dict(
     params={"self": "BarS"}, returns="int", ensures=[("number-of-entries", "result == len(self.bar)")], modifies=[],
     properties=["C13"], battery="bars_filled")
@@ -63,14 +63,16 @@ CONTRACTS[CO + "empty"] = dict(
     params={"self": "CompS"}, returns="None",
     ensures=[("no-tracks-none-selected", "len(self.tracks) == 0 and len(self.selected_tracks) == 0"),
              ("new-lists", "is_fresh(self.tracks) and is_fresh(self.selected_tracks)")],
-    modifies=["param:self"], properties=["C14"], battery="comps")
+    modifies=["param:self"], havoc={"self.tracks": "[]", "self.selected_tracks": "[]"}, properties=["C14"], battery="comps")
 CONTRACTS[CO + "set_title"] = dict(
     params={"self": "CompS", "title": "str", "subtitle": "str"}, returns="None",
     ensures=[("stored", "self.title == title and self.subtitle == subtitle")], modifies=["param:self"],
+    havoc={"self.title": "=title", "self.subtitle": "=subtitle"},
     properties=["C14"], battery="comp_strings")
 CONTRACTS[CO + "set_author"] = dict(
     params={"self": "CompS", "author": "str", "email": "str"}, returns="None",
     ensures=[("stored", "self.author == author and self.email == email")], modifies=["param:self"],
+    havoc={"self.author": "=author", "self.email": "=email"},
     properties=["C14"], battery="comp_strings")
 
 for _nm, _neg in (("__eq__", ""), ("__ne__", "not ")):
